@@ -31,7 +31,7 @@ ASSUMPTIONS = ["heaps are created by NewWritableFractalHeap and reloaded into a 
 MAXOBJ = 65536
 OVERHEAD = 19           # prefix 15 + checksum 4 (the repaired capacity rule)
 CAP = "cap_new"
-COUNTS = {"quick": (560, 8), "thorough": (24000, 160)}   # random histories: small blocks, blocks >= 16 KiB
+COUNTS = {"quick": (900, 10), "thorough": (20000, 140)}   # random histories: small blocks, blocks >= 16 KiB
 
 
 def usable(bs):
@@ -239,6 +239,14 @@ def judge(case, res):
             if len(d) == 0 or len(d) > MAXOBJ:
                 if indom and (r["ok"] or not r["same"]):
                     problems.append((i, "an insert of %d bytes must fail and change nothing" % len(d)))
+            elif vol + len(d) > u and cls == "in-domain" and r["ok"] and r["st"][6] == 0:
+                # the known multi-block class starts with a transition to an indirect root; an object that is
+                # accepted into the first direct block beyond its usable size is a different matter
+                problems.append((i, "an insert of %d bytes at fill level %d was accepted into the first direct block, usable size %d "
+                                    "(block size %d - prefix 15 - checksum 4)" % (len(d), vol, u, bs)))
+                ever[i] = r["id"]
+                live[r["id"]] = d
+                vol += len(d)
             elif vol + len(d) > u or cls == "multi-block":
                 cls = "multi-block" if cls in ("in-domain", "multi-block") else cls
                 if r["ok"]:
@@ -437,6 +445,39 @@ def trim(case, upto):
     return c
 
 
+# ----------------------------------------------------------------------------- replay of one stored case
+
+def replay(ctx):
+    """python3 tools/check.py C15 --replay replay/C15-<seed>.json : re-run the stored history on Go and on the model."""
+    rp = json.load(open(ctx.replay))
+    det = rp.get("detail", rp)
+    case = det.get("failing_input") or det.get("case") or det
+    res = vlib.run_harness(ctx.harness, "c15", [case])[0]
+    viol = []
+    print("history (bs=%d):" % case["bs"])
+    for i, (o, r) in enumerate(zip(case["ops"], res.get("ops", []))):
+        print("  #%d %-3s %-28s -> %s  st=%s" % (i, o["op"], (o.get("data", "")[:24] + ("..." if len(o.get("data", "")) > 24 else "")) or str(o.get("ref", o.get("id", ""))),
+                                            {k: (v[:32] if isinstance(v, str) else v) for k, v in r.items() if k in ("ok", "id", "data", "err", "same", "skip")}, r.get("st")))
+    if "panic" in res:
+        print("implementation panicked:", res["panic"])
+        return dict(violations=[dict(what="heap operation panicked", failing_input=case, impl=res)], known=[], coverage=dict(evaluations=1))
+    v = judge(case, res)
+    print("oracle class:", v["cls"], " problems:", v["problems"], " facts:", {k: n for k, n in v["facts"].items() if n})
+    out = vlib.coq_eval("From HV Require Import Base.Prelude Model.FHeap Model.FHeapTie.\n" + coq_case("c0", case, res)
+                        + "Definition codes_0 := Eval vm_compute in map (case_code %s) [c0].\nPrint codes_0.\n" % CAP, "c15replay")
+    code = vlib.parse_nlist(out, "codes_0")[0]
+    print("model vs implementation: %s; Coq specification: %s" % (
+        {0: "all observables equal", 1: "an operation result / header field / serialised byte differs", 2: "final store or readers differ"}.get(code % 4, "?")
+        + (" (history has a map-order dependent insert)" if code % 8 >= 4 else ""),
+        {0: "history outside its domain", 1: "model outputs equal the specification's", 2: "model outputs differ from the specification's"}[code // 8]))
+    for i, msg in v["problems"][:1]:
+        viol.append(dict(what="bs=%d op#%d: %s" % (case["bs"], i, msg), failing_input=trim(case, i)))
+    if code % 4 and not viol:
+        viol.append(dict(what="implementation and Coq model disagree on the replayed history", case=case, nofail=True,
+                         correspondence="Model.FHeap vs fractalheap_write.go"))
+    return dict(violations=viol, known=[], coverage=dict(evaluations=1, distinct_nontrivial=1, rule="replay of one stored history", samples=[case]))
+
+
 # ----------------------------------------------------------------------------- run
 
 def run(ctx):
@@ -445,6 +486,8 @@ def run(ctx):
     quick = ctx.tier == "quick"
     n_small, n_big = COUNTS["quick" if quick else "thorough"]
     cases, kinds = [], []
+    if getattr(ctx, "replay", None):
+        return replay(ctx)
     # boundary enumeration: every block size of the pool x fill level u-2 .. u+1 with one and with two objects
     for bs in sorted(set(BS_SMALL)):
         u = usable(bs)
